@@ -156,8 +156,8 @@ def injections(ctx):
         # 4. lexical / syntactic error at each token of each user file
         for u in user:
             toks = list(TOKEN.finditer(files[u]))
-            # the bases added for the include-order shapes repeat the sources of lib2/prog2: every second token in quick
-            step = 2 if quick and btag in ("lib2r", "prog2r", "chain3") else 1
+            # the bases added for the include-order shapes repeat the sources of lib2/prog2: every third token in quick
+            step = 3 if quick and btag in ("lib2r", "prog2r", "chain3") else 1
             for ti in range(0, len(toks), step):
                 m = toks[ti]
                 src = files[u]
@@ -459,8 +459,11 @@ def run(ctx, proofs):
                     "plain); distinct-nontrivial = injected projects in which the failure class really applies (unconditional classes: "
                     "always; mutations that may leave a valid program: when the in-process pipeline reports an error-level problem)",
             "exhaustive": False,
-            "exhaustive_part": "every failure class x every injection position of 4 clean base projects: argv position for missing/unreadable "
-                               "files, every user/included file for pragmas, every token of every user file for lexical/syntactic errors, "
+            "exhaustive_part": "every failure class x every injection position of %d clean base projects (library / program mode, 1-3 named "
+                               "files, a named file included by another named file in both command-line orders, a chain of three): argv "
+                               "position for missing/unreadable files, every user file for unresolvable includes, "
+                               "every user/included file for pragmas, every token of every user file for lexical/syntactic errors "
+                               "(every third token for the three order-variant bases in quick), " % len(bases()) +
                                "every definition for tuple/anonymous/parameter/"
                                "lift failures and duplicates",
             "per_class": per_class,
@@ -480,6 +483,14 @@ def run(ctx, proofs):
             "include_logic.rs): a named path that is not a directory is now always an input file; the two witnesses stay in the matrix "
             "(missing: an error must be displayed; existing: the file must be read and analysed)",
             "the ground truth and the stage outputs are as for C03 (harness e2e); rendering is a black box",
+            "front (Model.Includes + Model.Front): the theorems carry the premise that canonicalisation is idempotent (checked on the table "
+            "of every project: coverage.front.canon_idempotent); file contents are the model's parameter `content` (unreadable / does not "
+            "parse / include statements with ranges), classified per file by read_to_string and parser_logic::parse_file alone "
+            "(harness front content); fs::canonicalize, PathBuf and read_dir are observed through the tables (as for C19)",
+            "for the classes whose report comes from the lifter (duplicate parameter, lift failure) or from stages outside both mirrors "
+            "(pragma, several mains, invalid tuple / anonymous component, duplicate definition) the theorem starts from the report with the "
+            "level and location Spec.NoSilentSpec.failure_event demands; that the real stages produce it in that form is observed "
+            "(class table check on every unconditional injection: coverage.class_table_mismatches, per_class.manifests_by)",
         ]
     finally:
         for d, _, files in os.walk(base):
@@ -540,6 +551,19 @@ def replay(ctx, rep):
     if "project" not in rep:
         print("replay names a broken obligation, not an input:", rep.get("broken"))
         return 1
+    if str(rep.get("broken", "")).startswith("correspondence front"):
+        base = e2e.scratch_dir("replay-front")
+        try:
+            p = e2e.project_from_description(rep["project"]).write(base, 0)
+            fdis, fstats = c02front.compare([p], e2e.ground_truth([p]))
+            print("argv:", p.argv)
+            for d in fdis:
+                print("model (Model.Includes + Model.Front):", d["model"])
+                print("implementation (parse_files)        :", d["impl"])
+            print("front disagreements:", len(fdis), fstats)
+            return 1 if fdis else 0
+        finally:
+            shutil.rmtree(base, ignore_errors=True)
     rc = e2e.replay_project(dict(rep, run=dict(rep.get("run") or {}, level="warning", allow=[], verbose=True, sarif=True)))
     print("class:", rep.get("project", {}).get("meta", {}).get("class"))
     return rc
